@@ -820,6 +820,14 @@ func (e *env) assigned(stmts []ast.Stmt, out map[string]bool) {
 					}
 				}
 			case *ast.GoStmt:
+				if nm, ok := e.f.calls[e.t.p.str(v.Call.Fun)]; ok {
+					out[nm+"Called"] = true
+					return false
+				}
+				if nm, ok := e.f.calls["go func"]; ok {
+					out[nm+"Called"] = true
+					return false
+				}
 				if nm, ok := e.f.calls["time.Sleep"]; ok {
 					out[nm+"Called"] = true
 					out[nm+"Arg"] = true
@@ -1201,7 +1209,17 @@ func (e *env) block(stmts []ast.Stmt, fall string, ind string) string {
 		case *ast.GoStmt:
 			// `go func(..) { time.Sleep(d); ... }(..)`: a goroutine that first sleeps `d` (evaluated now: the closure does
 			// not change it) - captured as the call time.Sleep(d)
+			if nm, ok := e.f.calls[e.t.p.str(v.Call.Fun)]; ok {
+				// `go r.loop(ctx)`: a captured call
+				sb.WriteString(fmt.Sprintf("%slet %sCalled := true\n", ind, nm))
+				continue
+			}
 			fl, ok := v.Call.Fun.(*ast.FuncLit)
+			if nm, has := e.f.calls["go func"]; ok && has {
+				// any other goroutine: only that it is started
+				sb.WriteString(fmt.Sprintf("%slet %sCalled := true\n", ind, nm))
+				continue
+			}
 			nm, has := e.f.calls["time.Sleep"]
 			if !ok || !has || len(fl.Body.List) == 0 {
 				e.fail("go statement")
@@ -1384,15 +1402,26 @@ func (e *env) ifStmt(v *ast.IfStmt, rest []ast.Stmt, fall string, ind string) st
 	if v.Init != nil {
 		// `if x := E; cond { ... }`: the definition first (x is not used after the statement in this subset)
 		as, ok := v.Init.(*ast.AssignStmt)
-		if !ok || as.Tok != token.DEFINE || len(as.Lhs) != 1 || len(as.Rhs) != 1 {
-			e.fail("if with an init statement that is not a definition")
+		if !ok || (as.Tok != token.DEFINE && as.Tok != token.ASSIGN) || len(as.Lhs) != 1 || len(as.Rhs) != 1 {
+			e.fail("if with an init statement that is not a definition or an assignment")
 		}
 		x, ty := e.rhs(as.Rhs[0])
 		if ty == tUntyped {
 			ty = tInt
 		}
-		ln := e.setVar(as.Lhs[0].(*ast.Ident).Name, ty)
-		sb.WriteString(fmt.Sprintf("%slet %s : %s := %s\n", ind, ln, ty.lean(), x))
+		id, isId := as.Lhs[0].(*ast.Ident)
+		if !isId {
+			e.fail("if with an init statement that assigns a field")
+		}
+		if as.Tok == token.ASSIGN {
+			if _, known := e.vars[id.Name]; !known {
+				e.fail("assignment to unknown variable %s", id.Name)
+			}
+			sb.WriteString(fmt.Sprintf("%slet %s := %s\n", ind, e.lnames[id.Name], x))
+		} else {
+			ln := e.setVar(id.Name, ty)
+			sb.WriteString(fmt.Sprintf("%slet %s : %s := %s\n", ind, ln, ty.lean(), x))
+		}
 	}
 	var c string
 	if cal := e.mutCall(v.Cond); cal != nil && cal.resTypes[0] == tBool {
@@ -1646,7 +1675,14 @@ func (t *translator) translate(sp tspec) (res *tfun, why string) {
 		if len(sp.sliceOut) == 0 {
 			// the tail of the function: `return` statements keep their meaning, results are the function's
 			for _, r := range fd.Type.Results.List {
-				f.resTypes = append(f.resTypes, typeOfExpr(r.Type))
+				if len(r.Names) == 0 {
+					f.resTypes = append(f.resTypes, typeOfExpr(r.Type))
+				}
+				for _, nm := range r.Names {
+					f.resNames = append(f.resNames, nm.Name)
+					f.resTypes = append(f.resTypes, typeOfExpr(r.Type))
+					e.setVar(nm.Name, typeOfExpr(r.Type))
+				}
 			}
 		} else {
 			sp.sliceFrom = sp.sliceAt
@@ -1980,6 +2016,9 @@ func transAll(v1, v2 *pkg) string {
 			captureCalls: map[string]string{"time.Sleep": "sleep", "r.setPartitionId": "mark", "r.calc": "calc"}},
 		{file: "shared-resource.go", recv: "sharedResource", name: "scheduleProvision", lean: "v2_sr_scheduleProvision", view: "_prov", chanCap: map[string]string{"provision": "1"}},
 		{file: "shared-resource.go", recv: "sharedResource", name: "SetSharedCapacity", lean: "v2_sr_SetSharedCapacity", view: "_prov", chanCap: map[string]string{"provision": "1"}},
+		{file: "shared-resource.go", recv: "sharedResource", name: "Start", lean: "v2_sr_startTail", view: "_stt", sliceAt: "if r.leaseManager != nil {", sliceHas: "Provision", sliceN: 3,
+			inputs: map[string]string{"r.leaseManager.Provision(ctx)": "provErr:err"}, chanCap: map[string]string{"provision": "1"},
+			captureCalls: map[string]string{"r.loop": "loop", "r.calc": "calc", "go func": "watch"}},
 		{file: "shared-resource.go", recv: "sharedResource", name: "provisionBlobs", lean: "v2_sr_reprovision", sliceFrom: "sharedCapacity", sliceN: 8, sliceOut: []string{"count"}},
 		{file: "shared-resource.go", recv: "sharedResource", name: "provisionBlobs", lean: "v2_sr_partitionCount", sliceFrom: "sharedCapacity", sliceN: 3, sliceOut: []string{"count"}},
 	}, &sb)
